@@ -151,8 +151,8 @@ def als(ctx, shape, cplx, gevp, nprev, solver, number_ev, repeats, perm):
     """projected pencil == Galerkin projection at every step; reported eigenpair == selected Ritz pair; inputs unchanged"""
     TT = ctx.R.TT
     evp = ctx.R.evp
-    if ctx.mode == 'tv' and number_ev > 1:
-        raise SkipTV()          # several eigenvectors at once: their signs depend on how LAPACK is reached (buffer layout), the two concrete runs need not agree
+    if ctx.mode == 'tv' and (number_ev > 1 or repeats > 1):
+        raise SkipTV()          # several eigenvectors at once / a second sweep: eigenvector signs depend on how LAPACK is reached (buffer layout), the two concrete runs need not agree
     d = len(shape['dims'])
     sA, sx = _mk(shape)
     sigma = ctx.scalar('sigma')
